@@ -119,9 +119,12 @@ var positions = []position{
 	{"with-capture-left", "gauge g\n/^(\\d+)/ {\n  g = %s * $1\n}\n"},
 	{"with-capture-paren", "gauge g\n/^(\\d+)/ {\n  g = (%s) - $1\n}\n"},
 	{"settime", "gauge g\n/^/ {\n  settime(%s)\n  g = timestamp()\n}\n"},
+	{"concat-with-string-literal", "text t\n/^/ {\n  t = \"n=\" + %s\n}\n"},
+	{"concat-with-string-capture", "text t\n/^(\\w+)/ {\n  t = $1 + %s\n}\n"},
+	{"compare-with-string-capture", "counter hit\n/^(\\w+)/ {\n  $1 == %s {\n    hit++\n  }\n}\n"},
 }
 
-var lines = []string{"5", "x", "0"}
+var lines = []string{"5", "x", "0", "1000000", "1000001"}
 
 func run(c *vlib.Ctx, w int, pos position, e *node) {
 	src := fmt.Sprintf(pos.tmpl, e.String())
@@ -170,9 +173,9 @@ func reason(err error) string {
 
 func main() {
 	c := vlib.Init("exploration")
-	full := []*node{atomI(0), atomI(1), atomI(2), atomI(3), atomI(-1), atomI(-7), atomI(1 << 62),
+	full := []*node{atomI(0), atomI(1), atomI(2), atomI(3), atomI(-1), atomI(-7), atomI(1000), atomI(1 << 62),
 		atomF("0.0", 0), atomF("0.5", 0.5), atomF("2.0", 2), atomF("-1.5", -1.5), atomF("1e308", 1e308)}
-	small := []*node{atomI(0), atomI(2), atomI(-7), atomI(1 << 62), atomF("0.5", 0.5), atomF("-1.5", -1.5), atomF("0.0", 0)}
+	small := []*node{atomI(0), atomI(1), atomI(2), atomI(-7), atomI(1000), atomI(1 << 62), atomF("0.5", 0.5), atomF("-1.5", -1.5), atomF("0.0", 0)}
 	d2atoms := small
 	if c.Thorough() {
 		d2atoms = full
@@ -218,5 +221,5 @@ func main() {
 	})
 	c.Set("trees", len(trees))
 	c.Set("positions", len(positions))
-	c.Finish("all constant expression trees of depth<=1 over 12 int/float atoms and {+,-,*,/,%,**}, plus all depth-2 trees (left-nested, right-nested, unparenthesised) over the reduced (quick) / full (thorough) atom set, each in 13 syntactic positions; compiled with and without the optimiser and run on lines {5,x,0}; stores compared bit-exactly and runtime-error counts per line. distinct_nontrivial = distinct (position, expression) pairs accepted by at least one compile")
+	c.Finish("all constant expression trees of depth<=1 over 13 int/float atoms and {+,-,*,/,%,**}, plus all depth-2 trees (left-nested, right-nested, unparenthesised) over the reduced (quick) / full (thorough) atom set, each in 16 syntactic positions; compiled with and without the optimiser and run on lines {5,x,0,1000000,1000001}; stores compared bit-exactly and runtime-error counts per line. distinct_nontrivial = distinct (position, expression) pairs accepted by at least one compile")
 }
